@@ -10,7 +10,7 @@ pub fn property() -> Property {
         id: "C04",
         run,
         budget: |t| match t {
-            Tier::Quick => 4000,
+            Tier::Quick => 8000,
             Tier::Thorough => 400_000,
         },
         wall_cap_s: |t| match t {
@@ -23,7 +23,7 @@ pub fn property() -> Property {
             assumptions: vec![
                 "token validity window is the property's (must accept <= 5 min, must reject > 10 min + 2*gap, either in between)".into(),
                 "LRU victim accepted unless a survivor was certainly used less recently".into(),
-                "equal-seq-different-value and cas-on-empty-slot may be accepted or rejected (state must follow)".into(),
+                "an equal-seq put with a different value may be accepted or rejected (state must follow); a cas put on an empty slot must be accepted".into(),
                 "ed25519-dalek and sha1_smol are trusted for the oracle's own re-verification".into(),
             ],
         },
